@@ -116,7 +116,8 @@ class SpecError(Exception):
     pass
 
 
-def spec_stream(fs, topdir, content, linebuf=None):
+def spec_stream(fs, topdir, content, linebuf=None, trunc=None):
+    """trunc (classification of F10-LONGNAME only): explicit include names are cut to that many bytes"""
     visited, skipped, exprs = [], [0], []
 
     def walk(content):
@@ -126,6 +127,8 @@ def spec_stream(fs, topdir, content, linebuf=None):
                 exprs.append(arg)
             elif kind == "include":
                 name = arg if arg.startswith(("/", "./", "../")) else topdir + "/" + arg
+                if trunc and arg.startswith(("/", "./", "../")):
+                    name = arg[:trunc]
                 if name in visited:
                     skipped[0] += 1
                     continue
@@ -137,7 +140,7 @@ def spec_stream(fs, topdir, content, linebuf=None):
     return exprs, skipped[0]
 
 
-def spec_assemble(case, linebuf=None):
+def spec_assemble(case, linebuf=None, trunc=None):
     """-> ('ok', exprs, skipped, excluded exprs) | ('error',).  Sources in order; an exclusion file ('x') is read
     like every ^file, its hosts are excluded instead of targeted; WCOLL only when no source of targets is given"""
     fs = case["fs"]
@@ -157,14 +160,14 @@ def spec_assemble(case, linebuf=None):
             elif s[0] in ("f", "x"):
                 if s[1] not in fs or not fs[s[1]][0]:
                     raise SpecError(s[1])
-                e, k = spec_stream(fs, spec_dir(s[1]), fs[s[1]][1], linebuf)
+                e, k = spec_stream(fs, spec_dir(s[1]), fs[s[1]][1], linebuf, trunc)
                 if s[0] == "f":
                     exprs += e
                 else:
                     excluded += e
                 skipped += k
             else:
-                e, k = spec_stream(fs, ".", stdin, linebuf)
+                e, k = spec_stream(fs, ".", stdin, linebuf, trunc)
                 stdin = ""
                 exprs += e
                 skipped += k
@@ -842,6 +845,9 @@ def materialise(case):
     os.chmod(d, 0o755)
     for rel, (rd, content) in case["disk"].items():
         p = os.path.join(d, rel)
+        if len(p) >= 4000:
+            write_deep(d, rel, content, rd)         # (a path near PATH_MAX: component by component, through directory fds)
+            continue
         os.makedirs(os.path.dirname(p), exist_ok=True)
         q = os.path.dirname(p)
         while len(q) >= len(d):
@@ -850,6 +856,62 @@ def materialise(case):
         with open(p, "wb") as f:
             f.write(content.encode("latin-1"))
         os.chmod(p, 0o644 if rd else 0)
+
+
+def write_deep(d, rel, content, rd):
+    """create d/rel although the path string is longer than one system call takes (PATH_MAX)"""
+    comps = [c for c in rel.split("/") if c not in ("", ".")]
+    fd = os.open(d, os.O_RDONLY | os.O_DIRECTORY)
+    try:
+        for c in comps[:-1]:
+            try:
+                os.mkdir(c, 0o755, dir_fd=fd)
+            except FileExistsError:
+                pass
+            os.chmod(c, 0o755, dir_fd=fd)
+            nfd = os.open(c, os.O_RDONLY | os.O_DIRECTORY, dir_fd=fd)
+            os.close(fd)
+            fd = nfd
+        ffd = os.open(comps[-1], os.O_WRONLY | os.O_CREAT | os.O_TRUNC, 0o644, dir_fd=fd)
+        os.write(ffd, content.encode("latin-1"))
+        os.fchmod(ffd, 0o644 if rd else 0)
+        os.close(ffd)
+    finally:
+        os.close(fd)
+
+
+def long_rel(n, first="", last="f"):
+    """a relative path of exactly n bytes: `first` then components of 255 bytes, ending in a file component"""
+    parts = []
+    rem = n - len(first)
+    while rem > 256:
+        parts.append("a" * 255)
+        rem -= 256
+    if rem < 1:
+        raise ValueError(n)
+    parts.append((last * rem)[:rem])
+    p = first + "/".join(parts)
+    assert len(p) == n, (len(p), n)
+    return p
+
+
+PATHBUF = 4096          # sizeof fq_path in wcoll_ctx_read_file = PATH_MAX (Opt/Wcoll.lean `PATHBUF`)
+LONGNAME = ["?"]        # "truncated": an explicit include name of PATHBUF bytes or more is cut to PATHBUF-1 bytes and the
+                        # file of THAT name is read (F10-LONGNAME, as found); "refused": an error (probed)
+
+
+def long_explicit_includes(case):
+    """the explicit include names (`/`, `./`, `../`) of PATHBUF bytes or more in a case's files and stdin"""
+    out = []
+    for ct in [v[1] for v in case["disk"].values()] + [case["stdin"] or ""]:
+        if len(ct) < PATHBUF:
+            continue
+        for l in ct.split("\n"):
+            if len(l) >= PATHBUF and l.startswith("#include"):
+                t = l[8:].split()
+                if len(t) == 1 and len(t[0]) >= PATHBUF and t[0].startswith(("/", "./", "../")):
+                    out.append(t[0])
+    return out
 
 
 def run_real(pdsh, case, use_exec=False, attempt=0):
@@ -1135,8 +1197,8 @@ def judge(ctx, pdsh, cases, mode, linebuf):
             continue
         # ---------------- correspondence: model vs real
         mf = ml.split(" ")
-        # F10-TOPFD mirrored: read_wcoll leaves the stream of every file source open; the model's ghost count says how
-        # many, the probe (TOPFD[0]: the number of file sources at which the real pdsh runs out under 40 descriptors)
+        # only on a tree WITHOUT /repo 8d15944 (F10-TOPFD, probed; mode `+leak`): read_wcoll leaves the stream of every
+        # file source open; the model's ghost count says how many, the probe (TOPFD[0]: the number of file sources at which the real pdsh runs out under 40 descriptors)
         # says when that is too many
         exhausted = False
         if len(mf) == 8 and TOPFD[0] and r.get("nofile"):
@@ -1292,7 +1354,8 @@ def run(ctx):
         # F: every fgets piece parsed on its own (D12); G: the repaired reader AS WRITTEN — pieces of the same buffer
         # glued until one holds a newline (byte-level model; Props/C10 `glued_pieces_whole`: = whole lines)
         mode = ("F%d" % linebuf) if splits else ("G%d" % linebuf)
-        # F10-TOPFD: does read_wcoll leave the file it opened open?  the smallest number of `^file` sources on one
+        # read_wcoll closes the file it opened (/repo 8d15944; the model's default).  Probe for the older form
+        # (F10-TOPFD, a `fixed` finding: reported as a VIOLATION with the pinned command line): the smallest number of `^file` sources on one
         # command line that runs out of NOFILE_DEFAULT descriptors (none up to 64: it closes them)
         TOPFD[0] = 0
         for kf in (64, 40, 39, 38, 37, 36, 35, 34, 33, 32, 31, 30, 28, 24, 16):
@@ -1303,8 +1366,8 @@ def run(ctx):
                 TOPFD[0] = kf
             else:
                 break
-        if not TOPFD[0]:
-            mode += "+c"
+        if TOPFD[0]:
+            mode += "+leak"         # the reader BEFORE /repo 8d15944 (the model's default is the code that closes)
         # the small expander agrees with the real parser on the generator's expressions
         for e in EXPRS + ["w[2-3]", "v[1,4]z"]:
             word = e.split("#")[0].strip(" \t")
